@@ -168,6 +168,28 @@ def rule_R1(ctx):
               "ciphers, extensions and signature algorithms are GREASE-filtered before use", "lists filtered in the generator: %s" % sorted(flt), ctx.loc(gen))
 
 
+WIDTH = {"u8": 8, "u16": 16, "u32": 32, "u64": 64, "usize": 64, "u128": 128, "i8": 8, "i16": 16, "i32": 32, "i64": 64, "isize": 64, "i128": 128}
+
+
+def rule_R9(ctx):
+    """R9: counts and code points are never narrowed on their way into the fingerprint (a length cast to u8 wraps at 256 before it
+    is clamped to 99)"""
+    P = ctx.program
+    n = 0
+    for b in P.bodies.values():
+        if b.crate != "huginn_net_tls" or not (b.path.startswith(TLS) and ("generate_ja4" in b.path or "first_last_alpn" in b.path or "hash12" in b.path)):
+            continue
+        for i, j, s in b.iter_stmts():
+            if s["k"] == "assign" and s["r"]["k"] == "cast" and s["r"].get("ck") == "IntToInt":
+                fr, to = s["r"].get("from"), s["r"]["ty"]
+                if fr in WIDTH and to in WIDTH:
+                    n += 1
+                    ctx.check(WIDTH[to] >= WIDTH[fr], "R9", "%s:cast:%s->%s" % (T.short(b.path), fr, to), "widening conversion",
+                              "%s narrows a %s to %s: list lengths of 256 or more wrap before they are clamped / printed, so JA4_a carries a wrong count" % (T.short(b.path), fr, to), ctx.loc(b, i))
+    total = sum(1 for b in P.bodies.values() for _, _, s in b.iter_stmts() if s["k"] == "assign" and s["r"]["k"] == "cast" and s["r"].get("ck") == "IntToInt")
+    ctx.floor("R9", "integer conversions exported for the workspace (JA4 generator: %d)" % n, total, 40)
+
+
 def rule_R8(ctx):
     """R8: the reported SNI and ALPN (and the two ALPN characters of JA4_a) come from the FIRST entry of the extension's list"""
     P = ctx.program
@@ -493,5 +515,6 @@ def run(ctx):
     rule_R1(ctx)
     rule_R2_R3_R4(ctx)
     rule_R8(ctx)
+    rule_R9(ctx)
     rule_R5_R6_R7(ctx)
     rule_extract(ctx)
